@@ -22,12 +22,16 @@ META = {
 }
 META["explanation"] += ' R18.2 also requires that no path through apply bypasses the dispatch on the variant (an early return drops the diff).'
 META["explanation"] += ' R18.3 apply and map contain no panic source of their own (overflow / bounds assertion, unwrap / expect, indexing, explicit panic) in any feature configuration.'
+META["explanation"] += ' Shared: R10.12 (negative contract entry for imbl 5.0.0).'
 
 ADAPTERS = r"Iterator>?::(rev|skip|take|step_by|filter|filter_map|skip_while|take_while|chain|zip|cycle|flat_map|flatten|scan|peekable|enumerate|inspect|dedup)$"
 
 
 def run(ctx):
     F = ctx.facts
+    if UT in F.crates or IM in F.crates:
+        from . import c10
+        c10.r10_12(ctx)   # contract table, negative entry (imbl 5.0.0: FocusMut::swap family)
     r18_1(ctx)
     r18_2(ctx)
     r18_3(ctx)
